@@ -222,6 +222,20 @@ theorem rejected_unchanged (parseDec guardOk opaqueSem) (id : Nat) (i : In) (P :
     applySet parseDec guardOk opaqueSem id i P = P := by
   simp [applySet, h]
 
+/-- **genesis path**: a chain starts from a genesis record only if the record is valid, and then stores exactly that
+record; every later state reached by message / proposal updates is valid again (`stored_always_valid`). -/
+theorem genesis_stores_valid_record_exactly (opaqueSem) (G P0 : Props)
+    (h : genesisInit opaqueSem conds G = some P0) : P0 = G ∧ validate opaqueSem conds P0 = true := by
+  unfold genesisInit at h
+  by_cases hv : validate opaqueSem conds G = true
+  · simp only [hv, if_true, Option.some.injEq] at h
+    exact ⟨h.symm, h ▸ hv⟩
+  · simp [hv] at h
+
+theorem genesis_refuses_invalid (opaqueSem) (G : Props) (h : validate opaqueSem conds G = false) :
+    genesisInit opaqueSem conds G = none := by
+  simp [genesisInit, h]
+
 /-- validity is an invariant of every sequence of single-property updates (message or proposal path):
 the stored record always validates -/
 theorem stored_always_valid (parseDec guardOk opaqueSem) (P0 : Props)
@@ -239,6 +253,13 @@ theorem stored_always_valid (parseDec guardOk opaqueSem) (P0 : Props)
     | some P' =>
       obtain ⟨_, _, _, _, _, hv⟩ := set_reads_back_and_frames parseDec guardOk opaqueSem op.1 op.2 P0 P' hs
       simpa using hv
+
+/-- whichever path wrote them: from any genesis record the chain accepted, through any sequence of updates -/
+theorem valid_on_every_path (parseDec guardOk opaqueSem) (G P0 : Props)
+    (h : genesisInit opaqueSem conds G = some P0) (ops : List (Nat × In)) :
+    validate opaqueSem conds
+      (ops.foldl (fun P op => applySet parseDec guardOk opaqueSem op.1 op.2 P) P0) = true :=
+  stored_always_valid parseDec guardOk opaqueSem P0 (genesis_stores_valid_record_exactly opaqueSem G P0 h).2 ops
 
 /-! ## what "validates" means: the regenerated conditions imply the validity rules of the property -/
 
